@@ -242,9 +242,9 @@ impl WorkDir {
 }
 
 /// Real-time tripwire for runaway runs (never an oracle on its own, see DESIGN 3.5).
-pub const TRIPWIRE_MS: u64 = 30_000;
+pub const TRIPWIRE_MS: u64 = 90_000;
 /// tripwire while exploring (a suspected hang is confirmed with the longer one in a fresh process)
-pub const TRIPWIRE_EXPLORE_MS: u64 = 10_000;
+pub const TRIPWIRE_EXPLORE_MS: u64 = 20_000;
 
 pub fn run_cli(wd: &WorkDir, paths: &Paths, mode: &CliMode, env: &Env, lkm: bool) -> RunOut {
     let cfg = if lkm { wd.p("xdg/cwe_checker/lkm_config.json") } else { wd.p("xdg/cwe_checker/config.json") };
